@@ -186,64 +186,78 @@ func ruleInput(c *Ctx) {
 	}
 	c.atLeast("input installations reachable from the record-taking function", nInst, 2)
 
-	// GETLINE: branches of p.getline
-	gl := c.funcDecl("interp", "interp.getline")
+	// GETLINE: the getline helper (the function of the interpreter that takes a redirection token and can reach the
+	// record-taking function), specialised on that token on its SSA form: for a command (PIPE) and for a named file
+	// (LESS) no reachable block calls anything that reaches the record taker (NR and FNR untouched); for no
+	// redirection some reachable block does
 	vm := buildVMModel(c)
 	info := vm.pkg.TypesInfo
-	if gl == nil {
-		c.undecided("anchor:getline", token.NoPos, "interp.getline not found")
-	} else {
-		reachesNext := func(stmts []ast.Stmt) bool {
-			found := false
-			seen := map[string]bool{}
-			var visitFn func(name string)
-			var scan func(n ast.Node)
-			scan = func(n ast.Node) {
-				ast.Inspect(n, func(m ast.Node) bool {
-					call, ok := m.(*ast.CallExpr)
-					if !ok {
-						return true
-					}
-					if f := calleeOf(info, call); f != nil && f.Pkg() == vm.pkg.Types {
-						if f.Name() == "nextLine" {
-							found = true
-						}
-						visitFn(f.Name())
-					}
-					return true
-				})
-			}
-			visitFn = func(name string) {
-				if seen[name] || found {
-					return
-				}
-				seen[name] = true
-				if fd := c.funcDecl("interp", "interp."+name); fd != nil && fd.Body != nil {
-					scan(fd.Body)
-				}
-			}
-			for _, s := range stmts {
-				scan(s)
-			}
-			return found
+	{
+		ipkg := c.ssaPkg("interp")
+		reachTaker := map[*ssa.Function]bool{}
+		for t := range takers {
+			reachTaker[t] = true
 		}
-		ast.Inspect(gl.Body, func(n ast.Node) bool {
-			sw, ok := n.(*ast.SwitchStmt)
-			if !ok || sw.Tag == nil {
-				return true
-			}
-			for _, cs := range sw.Body.List {
-				cc := cs.(*ast.CaseClause)
-				r := reachesNext(cc.Body)
-				if cc.List == nil {
-					c.check(r, "getline:plain", cc.Pos(), "plain getline takes its record from the main input (nextLine: NR and FNR advance)", "plain getline no longer reads through nextLine: NR/FNR do not count the record")
+		for changed := true; changed; {
+			changed = false
+			for _, fn := range c.srcFuncs("interp") {
+				if reachTaker[fn] {
 					continue
 				}
-				nm := constName(info, cc.List[0])
-				c.check(!r, "getline:"+nm, cc.Pos(), "getline from a "+map[string]string{"PIPE": "command", "LESS": "named file"}[nm]+" never reaches nextLine: NR and FNR are left alone", "getline with redirection "+nm+" can reach nextLine: reading from a named file or command would change NR/FNR")
+				fn := fn
+				allInstrs(fn, func(in ssa.Instruction) {
+					if call, ok := in.(ssa.CallInstruction); ok {
+						if cal := call.Common().StaticCallee(); cal != nil && reachTaker[cal] && !reachTaker[fn] {
+							reachTaker[fn] = true
+							changed = true
+						}
+					}
+				})
 			}
-			return false
-		})
+		}
+		var glf *ssa.Function
+		var tokParam *ssa.Parameter
+		for _, fn := range c.srcFuncs("interp") {
+			if fn.Parent() != nil || !reachTaker[fn] || takers[fn] {
+				continue
+			}
+			for _, prm := range fn.Params {
+				if isNamed(prm.Type(), modPath+"/lexer", "Token") && (glf == nil || fn.Name() == "getline") {
+					glf, tokParam = fn, prm
+				}
+			}
+		}
+		tokVal := map[string]int64{}
+		for _, k := range c.constsOfType("lexer", "Token") {
+			if v, ok := constant.Int64Val(k.Val()); ok {
+				tokVal[k.Name()] = v
+			}
+		}
+		if glf == nil || ipkg == nil {
+			c.undecided("anchor:getline", token.NoPos, "no function of the interpreter takes a redirection token and reaches the record-taking function")
+		} else {
+			for _, sc := range []struct {
+				name string
+				want bool
+			}{{"ILLEGAL", true}, {"PIPE", false}, {"LESS", false}} {
+				ctx := &specCtx{fn: glf, sp: &spec{pkg: ipkg, ints: map[string]int64{}}, bind: map[*ssa.Parameter]specBind{tokParam: {known: true, val: tokVal[sc.name]}}}
+				reaches := false
+				for b := range ctx.reached() {
+					for _, in := range b.Instrs {
+						if call, ok := in.(ssa.CallInstruction); ok {
+							if cal := call.Common().StaticCallee(); cal != nil && reachTaker[cal] {
+								reaches = true
+							}
+						}
+					}
+				}
+				if sc.want {
+					c.check(reaches, "getline:plain", glf.Pos(), "plain getline takes its record from the main input (the record taker: NR and FNR advance)", "plain getline no longer reads through the record-taking function: NR/FNR do not count the record")
+				} else {
+					c.check(!reaches, "getline:"+sc.name, glf.Pos(), "getline from a "+map[string]string{"PIPE": "command", "LESS": "named file"}[sc.name]+" never reaches the record taker: NR and FNR are left alone", "getline with redirection "+sc.name+" can reach the record-taking function: reading from a named file or command would change NR/FNR")
+				}
+			}
+		}
 	}
 	// handlers: who calls setLine / setField
 	want := map[string][2]bool{"Getline": {true, false}, "GetlineField": {false, true}, "GetlineGlobal": {false, false}, "GetlineLocal": {false, false}, "GetlineSpecial": {false, false}, "GetlineArray": {false, false}}
